@@ -874,8 +874,18 @@ func (f *Frame) applyContract(p callPlan, args []Val, st *State, reach Term, whe
 			case c.mode == "bv" && fc.Arith == "int-assumed":
 				c.note(fmt.Sprintf("contract of %s (proved with machine arithmetic treated as mathematical) used over 64-bit vectors: no overflow assumed inside it", strings.ReplaceAll(p.name, "github.com/ipfs/boxo/", "")))
 			default:
-				c.oblige("error", fmt.Sprintf("%s#call:%s", shortFn(f.fn), p.name), reach, tFalse,
-					fmt.Sprintf("contract of %s is written for arith %s, caller uses %s", p.name, fc.Arith, c.mode))
+				// the callee's contract cannot be read in this arithmetic: nothing is taken
+				// from it (no postcondition assumed, its preconditions are its own callers'
+				// business) and the call is treated like one without a contract
+				c.note(fmt.Sprintf("contract of %s is written for arith %s, caller uses %s: call treated as having no contract (heap havocked, nothing assumed)", strings.ReplaceAll(p.name, "github.com/ipfs/boxo/", ""), fc.Arith, c.mode))
+				preSt := st.clone()
+				c.havocAll(st)
+				for k, v := range preSt.heap {
+					if strings.HasPrefix(k, "D|") {
+						st.heap[k] = v
+					}
+				}
+				return f.havocResults(ci, ci.Common().Signature().Results(), st)
 			}
 		}
 	}
